@@ -201,41 +201,8 @@ contract('C14', 'from_data_framing', functions=[BK + '.from_data', C4.RU + ':get
          note="from_data: header size == the input's written header size (padded iff DIRECTIO != 0), same block size / bits / channels / block counts")(C4.from_data_header_size)
 
 
-@contract('C14', 'per_antenna_pipeline_objects_are_independent', functions=[BK + '.__init__'])
-def independent_tables(vc):
-    """Every (antenna, polarisation) has its *own* digitiser, filterbank and requantiser object (copies of the template, never the same object
-    twice): _read_next_block sets each requantiser's target statistics from its own input stream, so a shared object would give one antenna the
-    statistics of another."""
-    nant = 2 + vc.choose(2, 'num_antennas')
-    npol = 1 + vc.choose(2, 'num_pols')
-    sr = Real('sample_rate')
-    vc.assume(sr > 0)
-    src = vc.interp.call(classref(vc, 'setigen.voltage.antenna:MultiAntennaArray'), [], dict(num_antennas=nant, sample_rate=sr, fch1=Real('fch1'), ascending=True, num_pols=npol,
-                                                                                         delays=[0] * nant, t_start=0, seed=Int('seed')))
-    taps, nb = Int('num_taps'), Int('num_branches')
-    nc, M = Int('num_chans'), Int('windows')
-    vc.assume(And(taps >= 1, nb >= 2, nb % 2 == 0, nc >= 1, nc <= nb // 2, M >= 1))
-    dig = vc.interp.call(classref(vc, 'setigen.voltage.quantization:RealQuantizer'), [], dict(target_fwhm=Real('dig_fwhm'), num_bits=8))
-    fb = mkobj(vc, 'setigen.voltage.polyphase_filterbank:PolyphaseFilterbank', num_taps=taps, num_branches=nb, window=symbolic_array('h', (taps * nb,)), window_fn='hamming',
-               cache=None, channelized_stds=None)
-    fb.partial = False
-    rq = vc.interp.call(classref(vc, 'setigen.voltage.quantization:ComplexQuantizer'), [], dict(target_fwhm=Real('rq_fwhm'), num_bits=8))
-    bs = M * taps * nant * nc * 2 * npol
-    out = vc.run(lambda: vc.interp.call(classref(vc, BK), [src, dig, fb, rq], dict(start_chan=0, num_chans=nc, block_size=bs)))
-    vc.cover('reachable')
-    vc.ensure('C14/backend.__init__/exc/none', out.ok)
-    if not out.ok:
-        return
-    F = out.value.fields
-    for name, tmpl in (('digitizer', dig), ('filterbank', fb), ('requantizer', rq)):
-        tab = F[name]
-        objs = [tab[a][p] for a in range(nant) for p in range(npol)]
-        vc.ensure(f'C14/backend.__init__/post/{name}-one-independent-object-per-antenna-and-polarisation',
-                  And(len(tab) == nant, all(len(row) == npol for row in tab), len({id(o) for o in objs}) == len(objs), all(o is not tmpl for o in objs),
-                      len({id(row) for row in tab}) == nant))
-    rqs = [F['requantizer'][a][p] for a in range(nant) for p in range(npol)]
-    parts = [q.fields[k] for q in rqs for k in ('quantizer_r', 'quantizer_i')]
-    vc.ensure('C14/backend.__init__/post/requantiser-components-not-shared', len({id(o) for o in parts}) == len(parts))
+# (the contract function lives in c02.py - both checks discharge it - to keep the module imports acyclic)
+contract('C14', 'per_antenna_pipeline_objects_are_independent', functions=[BK + '.__init__'])(C2.independent_tables)
 
 
 @contract('C14', 'channelized_noise_estimate_is_per_filterbank', functions=['setigen.voltage.polyphase_filterbank:PolyphaseFilterbank.estimate_channelized_stds'])
